@@ -4,6 +4,7 @@
 From Coq Require Import ZArith Bool List Lia.
 From MomoCommon Require Import GenPrelude.
 From C18 Require Import Gen_Vertices Gen_Ceil Model Layout Fill Vertices Bits.
+From C18 Require Gen_List.
 Import ListNotations.
 Local Open Scope Z_scope.
 
@@ -137,11 +138,26 @@ Section WithL.
   Qed.
 
   Lemma vertexCount_eq : vertexCount L = 2 ^ L.
-  Proof. unfold vertexCount. apply Z.shiftl_1_l. Qed.
+  Proof.
+    pose proof pow_L. unfold vertexCount, Gen_List.vertexCount. rewrite Z.shiftl_1_l. apply wrapU_small. lia.
+  Qed.
+
+  Lemma maxColumnCount_eq : maxColumnCount L = 2 ^ (L - 1).
+  Proof.
+    unfold maxColumnCount, Gen_Vertices.maxColumnCount. rewrite (wrapU_small 64 (L - 1)) by lia. rewrite Z.shiftl_1_l.
+    apply wrapU_small. split; [apply Z.pow_nonneg; lia|]. apply Z.pow_lt_mono_r; lia.
+  Qed.
+
+  Lemma maxCodeParam_eq : maxCodeParam = 255.
+  Proof. reflexivity. Qed.
+
+  Lemma source_constants :
+    Gen_List.vertexCount L = 2 ^ L /\ Gen_Vertices.maxColumnCount L = 2 ^ (L - 1) /\ Gen_Vertices.maxCodeParam = 255.
+  Proof. split; [exact vertexCount_eq|]. split; [exact maxColumnCount_eq|exact maxCodeParam_eq]. Qed.
 
   Lemma maxColumnCount_le : 0 < maxColumnCount L <= 2 ^ 14.
   Proof.
-    unfold maxColumnCount. rewrite Z.shiftl_1_l. split; [apply Z.pow_pos_nonneg; lia|].
+    rewrite maxColumnCount_eq. split; [apply Z.pow_pos_nonneg; lia|].
     apply Z.pow_le_mono_r; lia.
   Qed.
 
@@ -150,7 +166,7 @@ Section WithL.
     unfold vertices. rewrite in_zrange, vertexCount_eq. pose proof pow_L. rewrite Z2Nat.id by lia. lia.
   Qed.
 
-  Lemma vertices_in_range code cp : 0 <= cp <= 255 ->
+  Lemma vertices_in_range code cp : 0 <= cp <= 255 ->   (* 255 = maxCodeParam: maxCodeParam_eq *)
     In (fst (GetVertices L code cp)) (vertices L) /\ In (snd (GetVertices L code cp)) (vertices L).
   Proof.
     intros Hcp. rewrite !in_vertices. unfold GetVertices.
@@ -281,7 +297,7 @@ Section WithL.
     destruct (try_param_spec st cp cs I Hcs Hcp Hcount) as (b & a & off & al & rs & E & _).
     rewrite E. destruct b.
     - left. exists cp, a, off, al, rs. repeat split; auto; try lia.
-    - rewrite wrapU_small by lia. unfold maxCodeParam.
+    - rewrite wrapU_small by lia. rewrite maxCodeParam_eq.
       destruct (Z.gtb_spec (cp + 1) 255) as [Hgt|Hle].
       + right. split; [reflexivity|]. intros c Hc. assert (c = cp) by lia. subst c. eauto.
       + destruct (IH (cp + 1)) as [(cp' & a' & off' & al' & rs' & Es & Hr & Et & Hf)|(Es & Hf)]; try lia.
@@ -600,7 +616,7 @@ Section WithL.
     assert (G0 : gsize g_empty (vertices L) = 0).
     { unfold gsize. induction (vertices L); simpl; auto. }
     rewrite G0. unfold maxEdgeCount. split; [lia|]. split; [lia|].
-    unfold maxColumnCount, vertexCount. rewrite !Z.shiftl_1_l.
+    rewrite maxColumnCount_eq, vertexCount_eq.
     replace L with (L - 1 + 1) at 2 by lia. rewrite Z.pow_add_r by lia. lia.
   Qed.
 
@@ -630,5 +646,45 @@ Section WithL.
   Proof.
     intros I Ho H. rewrite (inv_mut_bits _ I) in H by auto. apply existsb_exists in H.
     destruct H as (r & Hr & E). apply andb_true_iff in E. destruct E as (E1 & E2). apply Z.eqb_eq in E1. eauto.
+  Qed.
+
+  (* ---------- generated code inside the model ---------- *)
+  (* the cxx2coq translation of the real DataColumnList::pvGetOffset (Gen_List.v, regenerated on every run) is the
+     hand model's `lookup`: Ok o <-> Some o, Stuck (the MOMO_ASSERT) <-> None *)
+  Lemma lookup_refines cp a code : lookup_gen L cp a code = lookup L cp a code.
+  Proof.
+    unfold lookup_gen, Gen_List.pvGetOffset, lookup.
+    destruct (GetVertices L code cp) as [v1 v2]. cbn [fst snd].
+    destruct (Z.eqb (a v1) 0), (Z.eqb (a v2) 0); reflexivity.
+  Qed.
+
+  (* every index the generated pvGetOffset (and Contains, pvFillAddends, AddEdges) uses into mAddends / mEdges is
+     inside the arrays, for EVERY code parameter the search loop can reach (<= the source's maxCodeParam) and every code *)
+  Theorem vertex_indices_in_bounds code cp : 0 <= cp <= maxCodeParam ->
+    0 <= fst (GetVertices L code cp) < vertexCount L /\ 0 <= snd (GetVertices L code cp) < vertexCount L /\
+    fst (GetVertices L code cp) <> snd (GetVertices L code cp).
+  Proof.
+    intros Hcp. rewrite vertexCount_eq. unfold GetVertices. apply GetVertices_range; auto.
+  Qed.
+
+  (* ---------- observation: the graphs of the code parameters (p, q) and (0, p xor q) are isomorphic ---------- *)
+  Lemma lxor_invol x p : Z.lxor (Z.lxor x p) p = x.
+  Proof. rewrite Z.lxor_assoc, Z.lxor_nilpotent, Z.lxor_0_r. reflexivity. Qed.
+
+  Theorem param_graph_isomorphic rs p q v v2 val : 0 <= p < 16 -> 0 <= q < 16 ->
+    (In (v2, val) (old_edges L (16 * p + q) g_empty rs v) <->
+     In (Z.lxor v2 p, val) (old_edges L (Z.lxor p q) g_empty rs (Z.lxor v p))).
+  Proof.
+    intros Hp Hq. rewrite !in_old_edges. unfold g_empty. cbn [In].
+    assert (Hinv : forall a b, a = Z.lxor b p <-> Z.lxor a p = b).
+    { intros a b. split; intros H; [rewrite H; apply lxor_invol|rewrite <- H; symmetry; apply lxor_invol]. }
+    split; intros [[]|(r & Hr & He)]; right; exists r; (split; [exact Hr|]);
+      unfold edge_of in *; unfold GetVertices in *; rewrite (GetVertices_param_xor L (r_code r) p q HL Hp Hq) in *; cbn [fst snd] in *.
+    - destruct He as [(E1 & E2)|(E1 & E2)]; injection E2 as E2 E3; subst val.
+      + left. split; [apply Hinv; exact E1|]. rewrite E2, lxor_invol. reflexivity.
+      + right. split; [apply Hinv; exact E1|]. rewrite E2, lxor_invol. reflexivity.
+    - destruct He as [(E1 & E2)|(E1 & E2)]; injection E2 as E2 E3; subst val.
+      + left. split; [apply Hinv; exact E1|]. f_equal. apply Hinv. exact E2.
+      + right. split; [apply Hinv; exact E1|]. f_equal. apply Hinv. exact E2.
   Qed.
 End WithL.
